@@ -305,7 +305,7 @@ CHECKS['C17'] = dict(
                   'thorough': {'pvq_NK_pairs': 600}},
 )
 
-C18_WRAPS = ['silk_NLSF_encode', 'silk_gains_quant']
+C18_WRAPS = ['silk_NLSF_encode', 'silk_gains_quant', 'silk_pitch_analysis_core_FLP', 'silk_pitch_analysis_core']
 CHECKS['C18'] = dict(
     level='exploration',
     rule="nlsf: one case per (codebook, first-stage vector) = 2 x 32: residual all-zero, every coefficient alone at every value -10..10, "
